@@ -18,6 +18,7 @@ import Proofs.PostProcessChecked
 import Proofs.PostProcessAtomic
 import Proofs.PostProcessRecord
 import Proofs.PostProcessGate
+import Proofs.PostProcessMappedContent
 import Gen.Facts
 
 namespace Props.C13
@@ -624,6 +625,86 @@ theorem mapped_nothing_outside_outs (params : List (String × String × Ty)) (to
     (h : wfParams params = true) :
     ∀ l ∈ leavesMap params top (legalForks kvs), ∃ k, legalName k = true ∧ Under (top ++ [k]) l.dest :=
   leavesMap_legal_under params top kvs h
+
+/-- `content_preserved` LIFTED TO MAPPED TOP-LEVEL CALLS (repaired branch,
+`postMapChecked`), both halves, for every key set with distinct keys.
+Well-formed signature; the leaves of ALL legal forks together
+(`leavesMap params top (legalForks kvs)`: fork `k` works below `top/<k>`) have
+sources that are pairwise non-nested ACROSS forks too, apart from outs/, each
+missing or a regular file/directory inside the pipestance, and free
+destinations — in the ORIGINAL file system `fs`.  Then after the whole call:
+(a) the destination of every leaf of every legal fork holds exactly the tree
+    that was at its source in the original `fs` (`∀ suf`);
+(b) the rewritten record is `expectedMapped fs …`: the entry of every legal key
+    `k` is `.obj (pureOuts (expectVal fs) params (fields of its record) (top/<k>))`
+    with `expectVal` judged in the ORIGINAL `fs`, the entry of every refused
+    key (not a legal file name) is unchanged, same keys in the same order;
+(c) every path that is not an ancestor of a fork directory and is unrelated to
+    the sources and destinations of the legal forks' leaves is untouched — in
+    particular the files of the refused forks stay where they are.
+The incomparability of the destinations and their position below `top/<k>` are
+not assumed (`dest_injective_mapped_checked`, `mapped_nothing_outside_outs`);
+the forks may be visited in any order of the list (the code visits them in
+sorted key order). -/
+theorem content_preserved_mapped (ps top : Path) (fs : FS) (params : List (String × String × Ty))
+    (kvs : List (String × J)) (hwf : wfParams params = true) (hnd : (kvs.map Prod.fst).Nodup)
+    (apart : ∀ l ∈ leavesMap params top (legalForks kvs), ∀ p, l.src = some p → ¬ p <+: top ∧ ¬ top <+: p)
+    (nonnest : (leavesMap params top (legalForks kvs)).Pairwise (fun l1 l2 => ∀ p1 p2, l1.src = some p1 →
+      l2.src = some p2 → ¬ p1 <+: p2 ∧ ¬ p2 <+: p1))
+    (status : ∀ l ∈ leavesMap params top (legalForks kvs), ∀ p, l.src = some p →
+      fs.get p = none ∨ ∃ e, fs.get p = some e ∧ e.isLink = false ∧ inside ps p = true)
+    (free : ∀ l ∈ leavesMap params top (legalForks kvs), fs.get l.dest = none) :
+    (∀ l ∈ leavesMap params top (legalForks kvs), ∀ p e, l.src = some p → fs.get p = some e → ∀ suf,
+      (postMapChecked Gen.postProcessDimAware ps params top kvs fs).2.get (l.dest ++ suf) = fs.get (p ++ suf)) ∧
+    (postMapChecked Gen.postProcessDimAware ps params top kvs fs).1 = expectedMapped fs params top kvs ∧
+    (∀ q, (∀ k, ¬ q <+: top ++ [k]) →
+      (∀ l ∈ leavesMap params top (legalForks kvs),
+        (∀ p, l.src = some p → ¬ p <+: q) ∧ ¬ l.dest <+: q ∧ ¬ q <+: l.outs) →
+      (postMapChecked Gen.postProcessDimAware ps params top kvs fs).2.get q = fs.get q) := by
+  rw [dim_aware]
+  have hc := clean_mapped ps top fs params kvs hwf hnd apart nonnest status free
+  have hlen := fun l hl => (LM_below params top kvs hwf l hl).2
+  obtain ⟨ha, hb⟩ := content_mapped ps top params fs kvs fs hc hlen (fun _ _ _ _ _ => rfl)
+  exact ⟨ha, hb, fun q hq h =>
+    postMapChecked_frame ps top params kvs fs hc hlen q (fun k => isPrefix_false_iff.mpr (hq k)) h⟩
+
+/-- non-vacuity: three fork keys, one of them refused (`a/`), two file leaves per fork; the
+signature is well formed, the keys distinct, and ALL side conditions hold (decidable check over the
+leaves of the legal forks together) -/
+example :
+    wfParams [("r", "", .file ""), ("s", "", .file "txt")] = true ∧
+    (([("a", J.null), ("a/", J.null), ("b", J.null)] : List (String × J)).map Prod.fst).Nodup ∧
+    cleanB ["ps"] ["ps", "outs"] exFSM
+      (leavesMap [("r", "", .file ""), ("s", "", .file "txt")] ["ps", "outs"] (legalForks exKvsM)) = true ∧
+    (leavesMap [("r", "", .file ""), ("s", "", .file "txt")] ["ps", "outs"] (legalForks exKvsM)).length = 4 := by
+  decide
+
+/-- … and the theorem instantiated on it: the rewritten record (the refused fork `a/` unchanged, the
+others pointing below `outs/a`, `outs/b`), and fork `b`'s second file at `outs/b/s.txt` -/
+example :
+    (postMapChecked Gen.postProcessDimAware ["ps"] [("r", "", .file ""), ("s", "", .file "txt")] ["ps", "outs"]
+        exKvsM exFSM).1.map (fun kv => (kv.1, emit kv.2)) =
+      [("a", emit (.obj [("r", .str "/ps/outs/a/r"), ("s", .str "/ps/outs/a/s.txt")])),
+       ("a/", emit (.obj [("r", .str "/ps/MK/fork1/files/f"), ("s", .str "/ps/MK/fork1/files/g")])),
+       ("b", emit (.obj [("r", .str "/ps/outs/b/r"), ("s", .str "/ps/outs/b/s.txt")]))] ∧
+    (postMapChecked Gen.postProcessDimAware ["ps"] [("r", "", .file ""), ("s", "", .file "txt")] ["ps", "outs"]
+        exKvsM exFSM).2.get ["ps", "outs", "b", "s.txt"] = some (.file 6) := by
+  have hf := cleanB_fields ["ps"] ["ps", "outs"] exFSM
+    (leavesMap [("r", "", .file ""), ("s", "", .file "txt")] ["ps", "outs"] (legalForks exKvsM)) (by decide)
+  obtain ⟨ha, hb, _⟩ := content_preserved_mapped ["ps"] ["ps", "outs"] exFSM
+    [("r", "", .file ""), ("s", "", .file "txt")] exKvsM (by decide) (by decide) hf.1 hf.2.1 hf.2.2.1 hf.2.2.2
+  have hl : leavesMap [("r", "", .file ""), ("s", "", .file "txt")] ["ps", "outs"] (legalForks exKvsM) =
+      [⟨.str "/ps/MK/fork0/files/f", ["ps", "outs", "a"], "r"⟩, ⟨.str "/ps/MK/fork0/files/g", ["ps", "outs", "a"], "s.txt"⟩,
+       ⟨.str "/ps/MK/fork2/files/f", ["ps", "outs", "b"], "r"⟩,
+       ⟨.str "/ps/MK/fork2/files/g", ["ps", "outs", "b"], "s.txt"⟩] := by rfl
+  constructor
+  · rw [hb]; decide
+  · have := ha ⟨.str "/ps/MK/fork2/files/g", ["ps", "outs", "b"], "s.txt"⟩
+      (by rw [hl]; simp)
+      ["ps", "MK", "fork2", "files", "g"] (.file 6) (by decide) (by decide) []
+    have h6 : exFSM.get ["ps", "MK", "fork2", "files", "g"] = some (.file 6) := by decide
+    rw [← h6]
+    simpa [Leaf.dest] using this
 
 /-- the keys of F24 under the repaired branch: `..` and `a/` are refused (entries unchanged, their
 files stay where they are, nothing appears in the pipestance directory), `a` is materialised -/
